@@ -184,6 +184,16 @@ class LuaTemplates:
             return out
         if k == "If":
             c = peel(n["c"])
+            # a helper the loader put back in place: `{ let var = t; <condition over var> }` - the parameters stand for the
+            # arguments
+            while c.get("k") == "Block" and c.get("e") is not None and all(st.get("k") == "Let" for st in c["stmts"]):
+                refs = dict(refs)
+                for st in c["stmts"]:
+                    bs = pat_bindings(st["pat"])
+                    r_ = self.ref_of(st.get("init"), refs, env) if st.get("init") is not None else None
+                    if len(bs) == 1 and r_ is not None:
+                        refs[bs[0]["hid"]] = r_
+                c = peel(c["e"])
             # if self.usage_count.get(t).unwrap_or(&0) > &0 { .. }
             if c.get("k") == "Binary" and c.get("op") == "Gt":
                 cnt = self._count_of(c["l"], refs, env)
